@@ -23,6 +23,7 @@ pub fn profile(name: &str) -> Option<GenFn> {
         "svckeep" => genp::svckeep,
         "mix" => genp::mix,
         "svcfaults" => genp::svcfaults,
+        "droprace" => genp::droprace,
         _ => return None,
     })
 }
